@@ -340,8 +340,8 @@ fn eval_dna(dna_bytes: &[u8], ctx: &mut Ctx) -> Result<(), (Failure, Value)> {
 
 fn worker(ctx: &mut Ctx) {
     let cases = match ctx.cfg.tier {
-        Tier::Quick => 640u64,
-        Tier::Thorough => 12_000u64,
+        Tier::Quick => 4_000u64,
+        Tier::Thorough => 80_000u64,
     };
     let run = DnaRun { cases: ctx.cfg.share(cases), max_dna: 900, shrink_iters: 40, stream: 0 };
     if let Some((f, doc)) = run_dna(ctx, &run, eval_dna) {
